@@ -350,21 +350,31 @@ func calculateReuseIndexFor(r *Rule, oldResTcs []TrafficShapingController) (equa
 // buildResourceTrafficShapingController builds TrafficShapingController slice from rules. the resource of rules must be equals to res.
 func buildResourceTrafficShapingController(res string, resRules []*Rule, oldResTcs []TrafficShapingController) []TrafficShapingController {
 	newTcsOfRes := make([]TrafficShapingController, 0, len(resRules))
-	for _, rule := range resRules {
+	// First pair every unchanged rule with its old controller. Doing this in the same pass as the metric
+	// reuse below let a new or modified rule listed earlier take the old controller of an unchanged rule as
+	// its metric donor, so the unchanged rule was rebuilt and lost its counters.
+	unchangedTcs := make(map[int]TrafficShapingController, len(resRules))
+	for i, rule := range resRules {
+		if res != rule.Resource {
+			continue
+		}
+		// there is equivalent rule in old traffic shaping controller slice
+		if equalIdx, _ := calculateReuseIndexFor(rule, oldResTcs); equalIdx >= 0 {
+			unchangedTcs[i] = oldResTcs[equalIdx]
+			// remove old tc from old resTcs
+			oldResTcs = append(oldResTcs[:equalIdx], oldResTcs[equalIdx+1:]...)
+		}
+	}
+	for i, rule := range resRules {
 		if res != rule.Resource {
 			logging.Error(errors.Errorf("unmatched resource name, expect: %s, actual: %s", res, rule.Resource), "Unmatched resource name in hotspot.buildResourceTrafficShapingController()", "rule", rule)
 			continue
 		}
-
-		equalIdx, reuseStatIdx := calculateReuseIndexFor(rule, oldResTcs)
-		// there is equivalent rule in old traffic shaping controller slice
-		if equalIdx >= 0 {
-			equalOldTC := oldResTcs[equalIdx]
+		if equalOldTC, ok := unchangedTcs[i]; ok {
 			newTcsOfRes = append(newTcsOfRes, equalOldTC)
-			// remove old tc from old resTcs
-			oldResTcs = append(oldResTcs[:equalIdx], oldResTcs[equalIdx+1:]...)
 			continue
 		}
+		_, reuseStatIdx := calculateReuseIndexFor(rule, oldResTcs)
 
 		// generate new traffic shaping controller
 		generator, supported := tcGenFuncMap[rule.ControlBehavior]
